@@ -101,6 +101,16 @@ def run_sim(case):
     r = call("SimulationResult()", SimulationResult, arr.copy(), rtype,
              inputs=[lw.State(list(s)) for s in ins], outputs=[lw.State(list(s)) for s in outs])
     check_sim_indexing(r, ins, outs, arr, "fresh result")
+    # the reporting methods are read-only: afterwards the result still indexes consistently and holds its data
+    import contextlib
+    import io
+    with contextlib.redirect_stdout(io.StringIO()):
+        call("display_as_dataframe()", r.display_as_dataframe)
+        call("display_as_dataframe(threshold=0.5)", r.display_as_dataframe, threshold=0.5)
+        if case["amp"] and case.get("amp_dtype", "complex") == "complex":
+            call("display_as_dataframe(conv_to_probability=True)", r.display_as_dataframe, conv_to_probability=True)
+        call("print_outputs()", r.print_outputs)
+    check_sim_indexing(r, ins, outs, arr, "result after display_as_dataframe / print_outputs")
     # unknown keys
     missing = lw.State([9] * case["modes"])
     expect_raises("missing-input", (KeyError,), lambda: r[missing])
@@ -168,6 +178,22 @@ def run_sim(case):
                         raise Violation("a mapping applied to the original after an earlier mapping gives different "
                                         "weights", key="mapping-mutates-source")
         cur, cur_model = mapped, new_model
+    first_inv = bool(case["maps"][0][1])
+    for kind in ("threshold", "parity"):
+        for inv in (first_inv, not first_inv):
+            fn0 = r.apply_threshold_mapping if kind == "threshold" else r.apply_parity_mapping
+            m0 = call(f"apply_{kind}_mapping(invert={inv}) on the original", fn0, invert=inv)
+            for i, si in enumerate(ins):
+                d = {}
+                for o, v in model[i].items():
+                    k = image(o, kind, inv)
+                    d[k] = d.get(k, 0.0) + v
+                got = {tuple(o): m0[lw.State(list(si)), o] for o in m0.outputs}
+                for k_ in set(d) | set(got):
+                    if abs(got.get(k_, 0.0) - d.get(k_, 0.0)) > 1e-12 * max(1.0, sum(model[i].values())) or \
+                            (k_ in d and k_ not in got):
+                        raise Violation(f"{kind}(invert={inv}) applied to the original again: image {k_} has weight "
+                                        f"{got.get(k_)}, model {d.get(k_)}", key=f"mapping-repeated:{kind}")
     check_sim_indexing(r, ins, outs, arr, "original after mappings")
     return {"nontrivial": shared, "labels": [f"{k}{'-inv' if i else ''}" for k, i in case["maps"]]}
 
@@ -219,6 +245,26 @@ def run_samp(case):
         if tuple(mapped.input) != tuple(case["input"]):
             raise Violation("mapped sampling result lost its input", key="input")
         cur, cur_model = mapped, nm
+    # the same mapping kind on the same (original) object with both invert values, in an order fixed by the case
+    import contextlib
+    import io
+    with contextlib.redirect_stdout(io.StringIO()):
+        call("SamplingResult.display_as_dataframe()", r.display_as_dataframe)
+        call("SamplingResult.print_outputs()", r.print_outputs)
+    first_inv = bool(case["maps"][0][1])
+    for kind in ("threshold", "parity"):
+        for inv in (first_inv, not first_inv, first_inv):
+            want = {}
+            for o, v in model.items():
+                k = image(o, kind, inv)
+                want[k] = want.get(k, 0) + v
+            fn = r.apply_threshold_mapping if kind == "threshold" else r.apply_parity_mapping
+            got = {tuple(k): v for k, v in call(f"apply_{kind}_mapping(invert={inv})", fn, invert=inv).items()}
+            if got != want:
+                raise Violation(f"{kind}(invert={inv}) on a sampling result that was mapped before with the other "
+                                f"invert value: {got}, model {want}", key=f"mapping-repeated:{kind}")
+    if {tuple(k): v for k, v in r.items()} != model:
+        raise Violation("sampling result changed by mappings / reporting methods", key="mapping-mutates-source")
     return {"nontrivial": shared, "labels": [f"{k}{'-inv' if i else ''}" for k, i in case["maps"]]}
 
 
